@@ -67,7 +67,7 @@ def vcut(run, F):
         ok = len(nullrow) == 1 and nullrow[0][1].endswith('Ok(NULL)') and not nullrow[0][2] and len(valrow) == 1
         outv = None
         if ok:
-            m = re.match(r'(\w+)\.ok_or_else\(', valrow[0][1])
+            m = re.match(r"(\w+)'*\.ok_or_else\(", valrow[0][1])
             outv = m.group(1) if m else None
             ok = outv is not None and ('%s := NULL' % outv) in valrow[0][2]
         un = [x for x in walk(cl) if x.get('k') == 'MethodCall' and
@@ -174,45 +174,44 @@ def unique(run, F):
     # and closed by one trailing null
     ft = N.tbl(fn)
     last_rows = [(cs, l, ef) for cs, l, ef in ft if 'keep is Keep::Last' in cs]
-    ok = len(last_rows) == 1
+    ok = len(last_rows) >= 1
     det = '%d row(s) for Keep::Last' % len(last_rows)
-    if ok:
-        cs, leaf, ef = last_rows[0]
+    seeds_seen = set()
+    for cs, leaf, ef in last_rows:
         defs = {}
         for e in ef:
             if ' := ' in e:
                 k_, v_ = e.split(' := ', 1)
                 defs[k_] = v_
         it = [k_ for k_, v_ in defs.items() if v_ == 'self.into_iter()']
-        ok = len(it) == 1
-        if ok:
-            itn = it[0]
-            firsts = [k_ for k_, v_ in defs.items() if v_ == '%s.next()' % itn]
-            pipe = [v_ for v_ in defs.values() if v_.startswith('%s.map(|a0| a0).chain(iter::once(NULL)).enumerate().filter_map(' % itn)]
-            order = [e.split(' := ')[0] for e in ef if ' := ' in e]
-            ok = len(firsts) == 1 and len(pipe) == 1 and \
-                order.index(firsts[0]) < [i for i, e in enumerate(order) if defs[e] is pipe[0]][0]
-            det = 'first element: %s; pipeline: %s' % (firsts, [p_[:70] for p_ in pipe])
-            if ok:
-                # run state seeded from the first element: Some(first) when it is valid, else null
-                fe = firsts[0]
-                seed_lets = []
-                for blk in walk(fn.hir):
-                    if blk.get('k') != 'Block':
-                        continue
-                    for st in blk.get('stmts', []):
-                        if st['k'] == 'Let' and 'init' in st and st['pat'].get('k') == 'Binding' and \
-                                peel(st['init']).get('k') in ('If', 'Match'):
-                            en_s = dtree.env_at(fn.hir, st['init'], env0)
-                            ts = dtree.table(st['init'], en_s)
-                            if any(fe in c for cs_, l_, e_ in ts for c in cs_):
-                                seed_lets.append(ts)
-                oks = len(seed_lets) == 1 and all(
-                    (l_ == 'NULL' and '!VALID(%s)' % fe in cs_ and not e_) or
-                    (l_ == 'Some(%s)' % fe and cs_ == frozenset({'VALID(%s)' % fe}) and not e_)
-                    for cs_, l_, e_ in seed_lets[0]) and len(seed_lets[0]) == 2
-                run.ob('UNQ.table', fn, 'Keep::Last run state seeded from the first element', oks, fn.loc(),
-                       'seed %s' % [dtree.show(x) for x in seed_lets])
+        if len(it) != 1:
+            ok = False
+            det = 'no single `self.into_iter()` binding'
+            break
+        itn = it[0]
+        firsts = [k_ for k_, v_ in defs.items() if v_ == '%s.next()' % itn]
+        pipe = [k_ for k_, v_ in defs.items()
+                if v_.startswith('%s.map(|a0| a0).chain(iter::once(NULL)).enumerate().filter_map(' % itn)]
+        order = [e.split(' := ')[0] for e in ef if ' := ' in e]
+        if not (len(firsts) == 1 and len(pipe) == 1 and order.index(firsts[0]) < order.index(pipe[0])
+                and leaf == 'Box::new(%s)' % pipe[0]):
+            ok = False
+            det = 'first element: %s; pipeline: %s; returns %s' % (firsts, pipe, leaf[:40])
+            break
+        fe = firsts[0]
+        # run state seeded from the first element: Some(first) when it is valid, else null
+        about = frozenset(c for c in cs if fe in c)
+        seed = [v_ for k_, v_ in defs.items() if v_ in ('Some(%s)' % fe, 'NULL') and
+                order.index(firsts[0]) < order.index(k_) < order.index(pipe[0])]
+        seeds_seen.add((about, tuple(seed)))
+        det = 'first element consumed, the rest enumerated from 0 with a sentinel None'
+    if ok:
+        fe_names = {c for a_, _ in seeds_seen for c in a_}
+        norm_ = {(frozenset(re.sub(r'v\d+', 'F', c) for c in a_), tuple(re.sub(r'v\d+', 'F', x) for x in sd))
+                 for a_, sd in seeds_seen}
+        oks = norm_ == {(frozenset({'VALID(F)'}), ('Some(F)',)), (frozenset({'!VALID(F)'}), ('NULL',))}
+        run.ob('UNQ.table', fn, 'Keep::Last run state seeded from the first element', oks, fn.loc(),
+               'seed per validity of the first element: %s' % sorted((sorted(a_), sd) for a_, sd in norm_))
     run.ob('UNQ.table', fn, 'Keep::Last pipeline: shifted by one, closed by a trailing null', ok,
            fn.loc(), det)
     fn = F.one('MapValidBasic::vsorted_unique')
